@@ -240,8 +240,9 @@ Fixpoint delete_one (x l : list string) : list (list string) :=
   | a :: r => (if starts_with_l x l then [skipn (length x) l] else []) ++ map (cons a) (delete_one x r)
   end.
 
-(* the reparse-safe domain of the text-level predicates (classes 1-3 of Check_Norm: inert
-   text, plain item leads, calm tight items) *)
+(* the reparse-safe domain of the text-level predicates (the classes of Check_Norm: inert
+   text, calm tight items; item leads are no restriction any more since the builder repair of
+   F-LEADPANIC / F-ITEMLEAD, tables with code spans none since the repair of F-TABLECODE) *)
 (* as Check_Norm.inert_inline, except that the text of a bare wiki link (which iwe never writes:
    it is regenerated from the url) is not looked at *)
 Fixpoint a_inert_inline (i : inline) : bool :=
@@ -270,7 +271,7 @@ Fixpoint a_inert_block (b : dblock) {struct b} : bool :=
   end.
 
 Definition blocks_dom (bs : list dblock) : bool :=
-  forallb a_inert_block bs && forallb plain_items bs && forallb calm_items bs.
+  forallb a_inert_block bs && forallb calm_items bs.
 
 (* also outside the domain: a library in which some note's title holds a refreshable link
    (F-TITLELINK of C02: formatting is not a fixpoint there, so "restores the formatted original"
